@@ -93,6 +93,14 @@ class ProcessState:
         elif callable(getattr(v, "cache_clear", None)) and not isinstance(v, type):
             seen.add(id(v))
             self.caches.append(v)
+        else:
+            fn = getattr(v, "__func__", v)        # staticmethod / classmethod objects wrap a function
+            if isinstance(fn, type(ProcessState._note)):
+                # mutable default arguments are per-process state too
+                for d in tuple(fn.__defaults__ or ()) + tuple((fn.__kwdefaults__ or {}).values()):
+                    if type(d) in (dict, list, set) and id(d) not in seen:
+                        seen.add(id(d))
+                        self.items.append((d, copy.copy(d)))
 
     def restore(self):
         n = 0
